@@ -1,5 +1,6 @@
 (* Lemmas for property C19 (rule chains and the fixture scheduler). *)
 From TV.Lib Require Import Base.
+From Coq Require Import Sorted Permutation.
 From TV.NetPure Require Import Ip Rules Sched.
 Open Scope N_scope.
 
@@ -59,3 +60,875 @@ Proof.
 Qed.
 
 End ChainProofs.
+
+(* ---- installation, removal, guards --------------------------------------- *)
+Section ChainHistory.
+Variable P : Type.
+Notation rule := (rule P).
+Notation chain := (chain P).
+Notation cev := (cev P).
+
+Definition keep (id : N) (i : N) : bool := negb (i =? id).
+
+Lemma remove_id_ids id (rs : list (N * rule)) :
+  map fst (remove_id id rs) = filter (keep id) (map fst rs).
+Proof.
+  induction rs as [|[i r] rs IH]; [reflexivity|].
+  cbn [remove_id filter map fst]. unfold keep at 1. fold (remove_id id rs).
+  destruct (negb (i =? id)); cbn [map fst]; now rewrite IH.
+Qed.
+
+Lemma uninstall_ids (c : chain) id : ids (uninstall c id) = filter (keep id) (ids c).
+Proof. apply remove_id_ids. Qed.
+
+Lemma uninstall_keeps_rule (c : chain) id i r :
+  i <> id -> (In (i, r) (c_rules (uninstall c id)) <-> In (i, r) (c_rules c)).
+Proof.
+  intros Hne. cbn. unfold remove_id. rewrite filter_In. cbn.
+  apply N.eqb_neq in Hne. rewrite Hne. cbn. tauto.
+Qed.
+
+Lemma uninstall_removes (c : chain) id : ~ In id (ids (uninstall c id)).
+Proof.
+  rewrite uninstall_ids, filter_In. unfold keep. rewrite N.eqb_refl. cbn. intros [_ H]; discriminate.
+Qed.
+
+Lemma install_ids (c : chain) g b : ids (fst (install c g b)) = ids c ++ [c_next c].
+Proof. unfold ids; cbn. now rewrite map_app. Qed.
+
+Lemma evaluate_ids (c : chain) p : ids (fst (fst (evaluate c p))) = ids c.
+Proof.
+  unfold evaluate, ids. pose proof (eval_rules_ids P (c_rules c) p) as H.
+  destruct (eval_rules (c_rules c) p) as [[rs v] log]. exact H.
+Qed.
+
+Lemma evaluate_log_sub (c : chain) p : incl (snd (evaluate c p)) (ids c).
+Proof.
+  unfold evaluate, ids. pose proof (eval_rules_log_sub P (c_rules c) p) as H.
+  destruct (eval_rules (c_rules c) p) as [[rs v] log]. exact H.
+Qed.
+
+Lemma evaluate_next (c : chain) p :
+  c_next (fst (fst (evaluate c p))) = c_next c /\ c_guards (fst (fst (evaluate c p))) = c_guards c.
+Proof. unfold evaluate. destruct (eval_rules (c_rules c) p) as [[rs v] log]. now cbn. Qed.
+
+(* well-formed: the chain is in installation order (ids strictly increasing),
+   every id and every live guard is older than next_rule_id *)
+Definition wf (c : chain) : Prop :=
+  StronglySorted N.lt (ids c) /\
+  Forall (fun i => i < c_next c) (ids c) /\
+  Forall (fun g => g < c_next c) (c_guards c).
+
+Lemma SS_filter {A} (R : A -> A -> Prop) f l : StronglySorted R l -> StronglySorted R (filter f l).
+Proof.
+  induction 1 as [|a l Hs IH Ha]; cbn; [constructor|].
+  destruct (f a); [constructor|]; auto.
+  rewrite Forall_forall in *. intros x Hx. apply filter_In in Hx. apply Ha. tauto.
+Qed.
+
+Lemma SS_snoc {A} (R : A -> A -> Prop) l x :
+  StronglySorted R l -> Forall (fun y => R y x) l -> StronglySorted R (l ++ [x]).
+Proof.
+  induction 1 as [|a l Hs IH Ha]; cbn; intros Hx.
+  - repeat constructor.
+  - inversion Hx; subst. constructor; auto.
+    apply Forall_app; split; auto.
+Qed.
+
+Lemma Forall_filter {A} (Q : A -> Prop) f l : Forall Q l -> Forall Q (filter f l).
+Proof.
+  rewrite !Forall_forall. intros H x Hx. apply filter_In in Hx. apply H. tauto.
+Qed.
+
+Lemma wf_chain0 : wf chain0.
+Proof. repeat split; constructor. Qed.
+
+Lemma has_guard_In (c : chain) id : has_guard c id = true <-> In id (c_guards c).
+Proof.
+  unfold has_guard. rewrite existsb_exists. split.
+  - intros (x & Hx & E). apply N.eqb_eq in E. now subst.
+  - intros H. exists id. split; auto. apply N.eqb_refl.
+Qed.
+
+Lemma wf_step (c : chain) e : wf c -> wf (fst (cstep c e)).
+Proof.
+  intros (Hs & Hi & Hg). destruct e as [g b|id|id|p]; cbn [cstep fst].
+  - unfold wf. rewrite install_ids. cbn [install fst c_next c_guards].
+    split; [apply SS_snoc; auto|]. split.
+    + apply Forall_app; split; [|repeat constructor; lia].
+      eapply Forall_impl; [|exact Hi]. cbn; intros; lia.
+    + destruct g; [apply Forall_app; split|]; try (repeat constructor; lia);
+        (eapply Forall_impl; [|exact Hg]; cbn; intros; lia).
+  - unfold drop_guard. destruct (has_guard c id); [|repeat split; auto].
+    unfold wf. rewrite uninstall_ids. cbn.
+    split; [apply SS_filter; auto|]. split; apply Forall_filter; auto.
+  - unfold wf, forget; cbn. repeat split; auto. apply Forall_filter; auto.
+  - pose proof (evaluate_ids c p) as E. pose proof (evaluate_next c p) as [En Eg].
+    destruct (evaluate c p) as [[c' v] log]. cbn in *. unfold wf. rewrite E, En, Eg. auto.
+Qed.
+
+Lemma crun_cons (c : chain) e es :
+  crun c (e :: es) = (fst (crun (fst (cstep c e)) es), snd (cstep c e) :: snd (crun (fst (cstep c e)) es)).
+Proof.
+  cbn [crun]. destruct (cstep c e) as [c1 o]. cbn. destruct (crun c1 es). reflexivity.
+Qed.
+
+Lemma wf_run (c : chain) es : wf c -> wf (fst (crun c es)).
+Proof.
+  revert c. induction es as [|e es IH]; intros c H; [exact H|].
+  rewrite crun_cons. cbn. apply IH, wf_step, H.
+Qed.
+
+Definition consulted (os : list (list N * verdict)) : list N := flat_map fst os.
+
+(* once a rule is gone (and its id is older than next_rule_id, so it can never
+   be handed out again) no evaluation ever invokes it *)
+Lemma gone_stays_gone (id : N) es : forall c : chain,
+  wf c -> id < c_next c -> ~ In id (ids c) ->
+  ~ In id (consulted (snd (crun c es))) /\ ~ In id (ids (fst (crun c es))).
+Proof.
+  induction es as [|e es IH]; intros c Hw Hlt Hn; [cbn; tauto|].
+  rewrite crun_cons. cbn [fst snd consulted flat_map].
+  assert (Hstep : id < c_next (fst (cstep c e)) /\ ~ In id (ids (fst (cstep c e))) /\
+                  ~ In id (fst (snd (cstep c e)))).
+  { destruct e as [g b|j|j|p]; cbn [cstep fst snd].
+    - rewrite install_ids. cbn. repeat split; [lia| |tauto].
+      rewrite in_app_iff. cbn. intros [H|[H|[]]]; [tauto|lia].
+    - unfold drop_guard. destruct (has_guard c j); cbn [fst snd]; [|tauto].
+      split; [exact Hlt|]. split; [|tauto].
+      rewrite uninstall_ids, filter_In. unfold release_guard, ids in *; cbn. tauto.
+    - cbn. tauto.
+    - pose proof (evaluate_ids c p) as E. pose proof (evaluate_next c p) as [En _].
+      pose proof (evaluate_log_sub c p) as Hl.
+      destruct (evaluate c p) as [[c' v] log]. cbn in *. rewrite E, En.
+      repeat split; auto. }
+  destruct Hstep as (H1 & H2 & H3).
+  destruct (IH (fst (cstep c e)) (wf_step c e Hw) H1 H2) as [IH1 IH2].
+  split; [|exact IH2]. rewrite in_app_iff. tauto.
+Qed.
+
+Lemma removed_never_consulted_lemma (es1 : list cev) id es2 :
+  let c1 := fst (crun chain0 es1) in
+  has_guard c1 id = true ->
+  ~ In id (consulted (snd (crun c1 (CDropGuard id :: es2)))).
+Proof.
+  intros c1 Hg. pose proof (wf_run chain0 es1 wf_chain0) as Hw. fold c1 in Hw.
+  rewrite crun_cons. cbn [cstep fst snd consulted flat_map app].
+  unfold drop_guard. rewrite Hg.
+  destruct Hw as (Hs & Hi & Hgs).
+  assert (Hlt : id < c_next c1).
+  { apply has_guard_In in Hg. rewrite Forall_forall in Hgs. now apply Hgs. }
+  apply gone_stays_gone.
+  - pose proof (wf_step c1 (CDropGuard id) (conj Hs (conj Hi Hgs))) as H.
+    cbn in H. unfold drop_guard in H. now rewrite Hg in H.
+  - exact Hlt.
+  - apply (uninstall_removes (release_guard c1 id) id).
+Qed.
+
+(* a rule whose guard nobody owns any more (forgotten, or installed through
+   Net::rule) stays in the chain whatever happens *)
+Lemma unguarded_stays (id : N) es : forall c : chain,
+  wf c -> In id (ids c) -> has_guard c id = false ->
+  In id (ids (fst (crun c es))) /\ has_guard (fst (crun c es)) id = false.
+Proof.
+  induction es as [|e es IH]; intros c Hw Hin Hg; [cbn; tauto|].
+  rewrite crun_cons. cbn [fst]. apply IH; [apply wf_step, Hw| |].
+  - destruct e as [g b|j|j|p]; cbn [cstep fst].
+    + rewrite install_ids, in_app_iff. tauto.
+    + unfold drop_guard. destruct (has_guard c j) eqn:Hj; [|exact Hin].
+      rewrite uninstall_ids, filter_In. split; [exact Hin|].
+      unfold keep. destruct (id =? j) eqn:E; [|reflexivity].
+      apply N.eqb_eq in E. subst. congruence.
+    + exact Hin.
+    + pose proof (evaluate_ids c p) as E. destruct (evaluate c p) as [[c' v] log].
+      cbn in *. now rewrite E.
+  - assert (Hlt : id < c_next c).
+    { destruct Hw as (_ & Hi & _). rewrite Forall_forall in Hi. now apply Hi. }
+    destruct e as [g b|j|j|p]; cbn [cstep fst].
+    + unfold has_guard in *. cbn. destruct g; [|exact Hg].
+      rewrite existsb_app, Hg. cbn. rewrite orb_false_r. apply N.eqb_neq. lia.
+    + unfold drop_guard. destruct (has_guard c j); [|exact Hg].
+      unfold has_guard in *. cbn. apply not_true_is_false. intros H.
+      apply existsb_exists in H as (x & Hx & E). apply filter_In in Hx as [Hx _].
+      assert (existsb (N.eqb id) (c_guards c) = true) by (apply existsb_exists; eauto). congruence.
+    + unfold has_guard in *. cbn. apply not_true_is_false. intros H.
+      apply existsb_exists in H as (x & Hx & E). apply filter_In in Hx as [Hx _].
+      assert (existsb (N.eqb id) (c_guards c) = true) by (apply existsb_exists; eauto). congruence.
+    + pose proof (evaluate_next c p) as [_ Eg]. destruct (evaluate c p) as [[c' v] log].
+      cbn in *. unfold has_guard in *. now rewrite Eg.
+Qed.
+
+Lemma forget_releases (c : chain) id : has_guard (forget c id) id = false.
+Proof.
+  unfold has_guard, forget, release_guard; cbn. apply not_true_is_false. intros H.
+  apply existsb_exists in H as (x & Hx & E). apply N.eqb_eq in E. subst x.
+  apply filter_In in Hx as [_ Hx]. rewrite N.eqb_refl in Hx. discriminate.
+Qed.
+
+Lemma forgotten_guard_stays_lemma (es1 : list cev) id es2 :
+  let c1 := fst (crun chain0 es1) in
+  In id (ids c1) ->
+  In id (ids (fst (crun c1 (CForget id :: es2)))).
+Proof.
+  intros c1 Hin. rewrite crun_cons. cbn [cstep fst].
+  apply unguarded_stays.
+  - apply (wf_step c1 (CForget id)), wf_run, wf_chain0.
+  - exact Hin.
+  - apply forget_releases.
+Qed.
+
+Lemma permanent_rule_stays_lemma (es1 : list cev) b es2 :
+  let c1 := fst (crun chain0 es1) in
+  In (c_next c1) (ids (fst (crun c1 (CInstall false b :: es2)))).
+Proof.
+  intros c1. rewrite crun_cons. cbn [cstep fst].
+  pose proof (wf_run chain0 es1 wf_chain0) as Hw. fold c1 in Hw.
+  apply unguarded_stays.
+  - apply (wf_step c1 (CInstall false b)), Hw.
+  - rewrite install_ids, in_app_iff. right. now left.
+  - unfold has_guard; cbn. apply not_true_is_false. intros H.
+    apply existsb_exists in H as (x & Hx & E). apply N.eqb_eq in E. subst x.
+    destruct Hw as (_ & _ & Hg). rewrite Forall_forall in Hg. apply Hg in Hx. lia.
+Qed.
+
+Lemma installation_order_lemma (es : list cev) :
+  StronglySorted N.lt (ids (fst (crun chain0 es))).
+Proof. apply (wf_run chain0 es wf_chain0). Qed.
+
+End ChainHistory.
+
+(* ======================================================================== *)
+(* 2. the scheduler                                                          *)
+(* ======================================================================== *)
+Section SchedProofs.
+Variable P : Type.
+Notation entry := (entry P).
+Notation sched := (sched P).
+Notation tout := (tout P).
+Notation emission := (N * P * verdict)%type.
+
+Definition kle (a b : entry) : Prop := key_leb a b = true.
+Definition sorted (l : list entry) : Prop := StronglySorted kle l.
+
+Lemma key_leb_spec (a b : entry) :
+  key_leb a b = true <-> (e_at a < e_at b \/ (e_at a = e_at b /\ e_seq a <= e_seq b)).
+Proof.
+  unfold key_leb. rewrite orb_true_iff, andb_true_iff, N.ltb_lt, N.eqb_eq, N.leb_le. tauto.
+Qed.
+
+Lemma kle_at (a b : entry) : kle a b -> e_at a <= e_at b.
+Proof. unfold kle. rewrite key_leb_spec. lia. Qed.
+
+Lemma kle_total (a b : entry) : key_leb a b = false -> kle b a.
+Proof.
+  unfold kle. intros H. apply key_leb_spec.
+  destruct (key_leb b a) eqn:E; [now apply key_leb_spec|].
+  assert (~ (e_at a < e_at b \/ (e_at a = e_at b /\ e_seq a <= e_seq b))) by (rewrite <- key_leb_spec; congruence).
+  assert (~ (e_at b < e_at a \/ (e_at b = e_at a /\ e_seq b <= e_seq a))) by (rewrite <- key_leb_spec; congruence).
+  lia.
+Qed.
+
+Lemma kle_trans (a b c : entry) : kle a b -> kle b c -> kle a c.
+Proof. unfold kle. rewrite !key_leb_spec. lia. Qed.
+
+Lemma in_insert (e x : entry) l : In x (insert e l) <-> x = e \/ In x l.
+Proof.
+  induction l as [|y l IH]; cbn; [intuition|].
+  destruct (key_leb e y); cbn; [intuition|]. rewrite IH. intuition.
+Qed.
+
+Lemma insert_sorted e l : sorted l -> sorted (insert e l).
+Proof.
+  induction 1 as [|y l Hs IH Hy]; cbn; [repeat constructor|].
+  destruct (key_leb e y) eqn:E.
+  - constructor; [constructor; auto|]. constructor; [exact E|].
+    eapply Forall_impl; [|exact Hy]. intros z Hz. eapply kle_trans; eauto.
+  - constructor; [exact IH|]. rewrite Forall_forall in *. intros z Hz.
+    apply in_insert in Hz as [->|Hz]; [now apply kle_total|auto].
+Qed.
+
+Lemma isort_snoc (l : list entry) e : isort (l ++ [e]) = insert e (isort l).
+Proof. unfold isort. now rewrite fold_left_app. Qed.
+
+Lemma isort_sorted (l : list entry) : sorted (isort l).
+Proof.
+  induction l as [|e l IH] using rev_ind; [constructor|].
+  rewrite isort_snoc. now apply insert_sorted.
+Qed.
+
+Lemma in_isort (x : entry) l : In x (isort l) <-> In x l.
+Proof.
+  induction l as [|e l IH] using rev_ind; [reflexivity|].
+  rewrite isort_snoc, in_insert, in_app_iff, IH. cbn. intuition.
+Qed.
+
+Definition later (now : N) (e : entry) : bool := now <? e_at e.
+
+Lemma filter_insert (now : N) (e : entry) l :
+  now < e_at e -> filter (later now) (insert e l) = insert e (filter (later now) l).
+Proof.
+  intros He. assert (Le : later now e = true) by (apply N.ltb_lt; exact He).
+  induction l as [|x l IH]; cbn; [now rewrite Le|].
+  destruct (key_leb e x) eqn:E.
+  - assert (Lx : later now x = true).
+    { apply N.ltb_lt. apply kle_at in E. lia. }
+    cbn. rewrite Le, Lx. cbn. now rewrite E.
+  - cbn. destruct (later now x) eqn:Lx; cbn; rewrite IH; [now rewrite E|reflexivity].
+Qed.
+
+Lemma sorted_filter f (l : list entry) : sorted l -> sorted (filter f l).
+Proof. apply SS_filter. Qed.
+
+Lemma split_due_sorted (now : N) (l : list entry) : sorted l ->
+  split_due now l = (filter (fun x => e_at x <=? now) l, filter (later now) l).
+Proof.
+  induction 1 as [|x l Hs IH Hx]; cbn; [reflexivity|].
+  unfold later at 1. destruct (now <? e_at x) eqn:E.
+  - apply N.ltb_lt in E.
+    assert (A : forall y, In y l -> now < e_at y).
+    { rewrite Forall_forall in Hx. intros y Hy. apply Hx, kle_at in Hy. lia. }
+    assert (E1 : (e_at x <=? now) = false) by (apply N.leb_gt; lia). rewrite E1.
+    f_equal.
+    + clear -A. induction l as [|y l IH]; cbn; [reflexivity|].
+      assert ((e_at y <=? now) = false) as -> by (apply N.leb_gt, A; now left).
+      apply IH. intros; apply A; now right.
+    + f_equal. clear -A. induction l as [|y l IH]; cbn; [reflexivity|].
+      unfold later at 1. assert ((now <? e_at y) = true) as -> by (apply N.ltb_lt, A; now left).
+      f_equal. apply IH. intros; apply A; now right.
+  - rewrite IH. assert ((e_at x <=? now) = true) as -> by (apply N.leb_le; apply N.ltb_ge in E; lia).
+    reflexivity.
+Qed.
+
+(* ---- entries created for a list of emissions ---------------------------- *)
+
+Lemma delayed_app k (a b : list emission) :
+  delayed k (a ++ b) = delayed k a ++ delayed (k + N.of_nat (length (delayed k a))) b.
+Proof.
+  revert k. induction a as [|[[t p] v] a IH]; intros k; cbn [app delayed length].
+  - now rewrite N.add_0_r.
+  - destruct v as [|d|]; try apply IH.
+    destruct (d =? 0); [apply IH|].
+    cbn [app length]. rewrite IH. f_equal. f_equal. f_equal. lia.
+Qed.
+
+Lemma delayed_nth k (ems : list emission) i e :
+  nth_error (delayed k ems) i = Some e -> e_seq e = k + N.of_nat i.
+Proof.
+  revert k i. induction ems as [|[[t p] v] ems IH]; intros k i; cbn [delayed].
+  - destruct i; discriminate.
+  - destruct v as [|d|]; try apply IH.
+    destruct (d =? 0); [apply IH|].
+    destruct i; cbn.
+    + intros [= <-]. cbn. lia.
+    + intros H. apply IH in H. lia.
+Qed.
+
+Lemma delayed_in k (ems : list emission) e :
+  In e (delayed k ems) -> exists t d, In (t, e_pkt e, Deliver d) ems /\ 0 < d /\ e_at e = t + d.
+Proof.
+  revert k. induction ems as [|[[t p] v] ems IH]; intros k; cbn [delayed]; [intros []|].
+  assert (G : forall k', In e (delayed k' ems) ->
+              exists t0 d, In (t0, e_pkt e, Deliver d) ((t, p, v) :: ems) /\ 0 < d /\ e_at e = t0 + d).
+  { intros k' H. apply IH in H as (t0 & d & H1 & H2). exists t0, d. split; [now right|exact H2]. }
+  destruct v as [|d|]; try apply G.
+  destruct (d =? 0) eqn:E; [apply G|].
+  intros [<-|H]; [|eapply G; eauto].
+  exists t, d. cbn. apply N.eqb_neq in E. repeat split; [now left|lia].
+Qed.
+
+Lemma in_delayed k (ems : list emission) t p d :
+  In (t, p, Deliver d) ems -> 0 < d -> exists e, In e (delayed k ems) /\ e_pkt e = p /\ e_at e = t + d.
+Proof.
+  revert k. induction ems as [|[[t' p'] v] ems IH]; intros k; [intros []|].
+  intros [H|H] Hd.
+  - inversion H; subst. cbn [delayed].
+    assert ((d =? 0) = false) as -> by (apply N.eqb_neq; lia).
+    eexists. split; [now left|]. cbn. auto.
+  - cbn [delayed].
+    assert (G : forall k', exists e, In e (delayed k' ems) /\ e_pkt e = p /\ e_at e = t + d)
+      by (intros; now apply IH).
+    destruct v as [|d'|]; try apply G.
+    destruct (d' =? 0); [apply G|].
+    destruct (G (k + 1)) as (e & H1 & H2). exists e. split; [now right|exact H2].
+Qed.
+
+(* ---- the closed form of the scheduler state ------------------------------ *)
+
+Definition Inv (s : sched) (ems : list emission) : Prop :=
+  s_pending s = filter (later (s_now s)) (isort (delayed 0 ems)) /\
+  s_next s = N.of_nat (length (delayed 0 ems)).
+
+Lemma Inv0 : Inv sched0 [].
+Proof. split; reflexivity. Qed.
+
+Lemma route_inv (s : sched) ems p v :
+  Inv s ems ->
+  let r := route s p v in
+  Inv (fst r) (ems ++ [(s_now s, p, v)]) /\ s_now (fst r) = s_now s /\
+  snd r = immediate [(p, v)].
+Proof.
+  intros [Hp Hn]. unfold Inv. rewrite delayed_app. cbn [delayed length].
+  destruct v as [|d|]; cbn [route].
+  - rewrite app_nil_r. cbn. auto.
+  - destruct (d =? 0) eqn:E; cbn [fst snd immediate flat_map]; rewrite ?E.
+    + rewrite app_nil_r. cbn. auto.
+    + apply N.eqb_neq in E. cbn [schedule s_now s_pending s_next app].
+      rewrite isort_snoc, filter_insert by (cbn; lia).
+      rewrite app_length, Hp, Hn. cbn [length]. rewrite N.add_0_l.
+      repeat split; auto. lia.
+  - rewrite app_nil_r. cbn. auto.
+Qed.
+
+Definition stamp (t : N) (pvs : list (P * verdict)) : list emission :=
+  map (fun pv => (t, fst pv, snd pv)) pvs.
+
+Lemma immediate_cons (pv : P * verdict) pvs : immediate (pv :: pvs) = immediate [pv] ++ immediate pvs.
+Proof. unfold immediate. cbn. now rewrite app_nil_r. Qed.
+
+Lemma route_all_inv pvs : forall (s : sched) ems,
+  Inv s ems ->
+  let r := route_all s pvs in
+  Inv (fst r) (ems ++ stamp (s_now s) pvs) /\ s_now (fst r) = s_now s /\ snd r = immediate pvs.
+Proof.
+  induction pvs as [|[p v] pvs IH]; intros s ems HI; cbn [route_all stamp map].
+  - rewrite app_nil_r. cbn. auto.
+  - pose proof (route_inv s ems p v HI) as (H1 & H2 & H3).
+    destruct (route s p v) as [s1 o1]. cbn [fst snd] in *.
+    pose proof (IH s1 _ H1) as (H4 & H5 & H6).
+    destruct (route_all s1 pvs) as [s2 o2]. cbn [fst snd] in *.
+    rewrite H2 in H4. rewrite <- app_assoc in H4. cbn in H4.
+    split; [exact H4|]. split; [congruence|].
+    rewrite (immediate_cons (p, v) pvs). congruence.
+Qed.
+
+Lemma filter_later_later now now' (l : list entry) :
+  now <= now' -> filter (later now') (filter (later now) l) = filter (later now') l.
+Proof.
+  intros H. rewrite filter_filter. apply filter_ext. intros x. unfold later.
+  destruct (now' <? e_at x) eqn:E; [|now rewrite andb_false_r].
+  apply N.ltb_lt in E. assert ((now <? e_at x) = true) as -> by (apply N.ltb_lt; lia). reflexivity.
+Qed.
+
+Lemma tick_inv (s : sched) ems dt pvs :
+  Inv s ems ->
+  let r := tick s dt pvs in
+  Inv (fst r) (ems ++ stamp (s_now s + dt) pvs) /\
+  s_now (fst r) = s_now s + dt /\
+  snd r = mktout (s_now s) (s_now s + dt)
+                 (map e_pkt (filter (in_window (s_now s) (s_now s + dt)) (isort (delayed 0 ems))))
+                 (immediate pvs).
+Proof.
+  intros [Hp Hn]. unfold tick.
+  rewrite Hp, split_due_sorted by (apply sorted_filter, isort_sorted).
+  rewrite filter_later_later by lia.
+  set (s1 := mksched (s_now s + dt) (filter (later (s_now s + dt)) (isort (delayed 0 ems))) (s_next s)).
+  assert (H1 : Inv s1 ems) by (split; [reflexivity|exact Hn]).
+  pose proof (route_all_inv pvs s1 ems H1) as (H2 & H3 & H4).
+  destruct (route_all s1 pvs) as [s' imm]. cbn [fst snd] in *.
+  split; [exact H2|]. split; [exact H3|].
+  rewrite H4. f_equal. f_equal. rewrite filter_filter. apply filter_ext.
+  intros x. unfold later, in_window. reflexivity.
+Qed.
+
+(* the declarative scheduler: what every tick hands to the fabric *)
+Fixpoint spec_outs (now : N) (ems : list emission) (ticks : list (N * list (P * verdict))) : list tout :=
+  match ticks with
+  | [] => []
+  | (dt, pvs) :: r =>
+      mktout now (now + dt)
+             (map e_pkt (filter (in_window now (now + dt)) (isort (delayed 0 ems))))
+             (immediate pvs)
+      :: spec_outs (now + dt) (ems ++ stamp (now + dt) pvs) r
+  end.
+
+Lemma srun_spec ticks : forall (s : sched) ems,
+  Inv s ems ->
+  let r := srun s ticks in
+  snd r = spec_outs (s_now s) ems ticks /\
+  Inv (fst r) (ems ++ emissions (s_now s) ticks) /\
+  s_now (fst r) = fold_left (fun a tk => a + fst tk) ticks (s_now s).
+Proof.
+  induction ticks as [|[dt pvs] ticks IH]; intros s ems HI; cbn [srun spec_outs emissions fold_left].
+  - rewrite app_nil_r. cbn. auto.
+  - pose proof (tick_inv s ems dt pvs HI) as (H1 & H2 & H3).
+    destruct (tick s dt pvs) as [s1 o]. cbn [fst snd] in *.
+    pose proof (IH s1 _ H1) as (H4 & H5 & H6).
+    destruct (srun s1 ticks) as [s2 os]. cbn [fst snd] in *.
+    rewrite H2 in *. split; [now rewrite H3, H4|].
+    split; [|exact H6]. unfold stamp in H5. now rewrite <- app_assoc in H5.
+Qed.
+
+Lemma tick_spec_lemma ticks : snd (srun (@sched0 P) ticks) = spec_outs 0 [] ticks.
+Proof. apply (srun_spec ticks sched0 [] Inv0). Qed.
+
+
+(* ---- consequences of the closed form -------------------------------------- *)
+
+Definition etime (x : emission) : N := fst (fst x).
+Definition epkt (x : emission) : P := snd (fst x).
+
+Lemma stamp_times t pvs : Forall (fun x => etime x = t) (stamp t pvs).
+Proof. unfold stamp. apply Forall_forall. intros x Hx. apply in_map_iff in Hx as (pv & <- & _). reflexivity. Qed.
+
+Lemma emissions_times ticks : forall now, Forall (fun x => now <= etime x) (emissions now ticks).
+Proof.
+  induction ticks as [|[dt pvs] ticks IH]; intros now; cbn [emissions]; [constructor|].
+  apply Forall_app; split.
+  - eapply Forall_impl; [|apply (stamp_times (now + dt) pvs)]. cbn. intros x ->. lia.
+  - eapply Forall_impl; [|apply IH]. cbn. intros; lia.
+Qed.
+
+Lemma spec_outs_due ticks : forall now ems o,
+  In o (spec_outs now ems ticks) ->
+  exists E rest,
+    emissions now ticks = E ++ rest /\
+    Forall (fun x => etime x <= o_from o) E /\
+    Forall (fun x => o_at o <= etime x) rest /\
+    o_due o = map e_pkt (filter (in_window (o_from o) (o_at o)) (isort (delayed 0 (ems ++ E)))) /\
+    now <= o_from o /\ o_from o <= o_at o.
+Proof.
+  induction ticks as [|[dt pvs] ticks IH]; intros now ems o; cbn [spec_outs emissions]; [intros []|].
+  intros [<-|Hin].
+  - exists [], (stamp (now + dt) pvs ++ emissions (now + dt) ticks). cbn [o_from o_at o_due app].
+    rewrite app_nil_r. repeat split; try constructor; try lia.
+    apply Forall_app; split.
+    + eapply Forall_impl; [|apply (stamp_times (now + dt) pvs)]. cbn. intros x ->. lia.
+    + apply emissions_times.
+  - apply IH in Hin as (E & rest & H1 & H2 & H3 & H4 & H5 & H6).
+    exists (stamp (now + dt) pvs ++ E), rest. rewrite H1, <- app_assoc in *.
+    repeat split; auto; try lia.
+    apply Forall_app; split; [|exact H2].
+    eapply Forall_impl; [|apply (stamp_times (now + dt) pvs)]. cbn. intros x ->. lia.
+Qed.
+
+Lemma spec_outs_imm ticks : forall now ems o p,
+  In o (spec_outs now ems ticks) -> In p (o_imm o) ->
+  exists v, In (o_at o, p, v) (emissions now ticks) /\ (v = Pass \/ v = Deliver 0).
+Proof.
+  induction ticks as [|[dt pvs] ticks IH]; intros now ems o p; cbn [spec_outs emissions]; [intros []|].
+  intros [<-|Hin] Hp.
+  - cbn [o_imm o_at] in *. unfold immediate in Hp. apply in_flat_map in Hp as ([q v] & Hq & Hv).
+    cbn [fst snd] in Hv. exists v. split.
+    + apply in_or_app. left. unfold stamp. apply in_map_iff. exists (q, v). cbn.
+      destruct v as [|d|]; cbn in Hv; try destruct (d =? 0); cbn in Hv; intuition; subst; auto.
+    + destruct v as [|d|]; cbn in Hv; [now left| |destruct Hv].
+      destruct (d =? 0) eqn:E; [|destruct Hv]. apply N.eqb_eq in E. subst. now right.
+  - destruct (IH _ _ _ _ Hin Hp) as (v & H1 & H2). exists v. split; [|exact H2].
+    apply in_or_app. now right.
+Qed.
+
+Fixpoint tick_times (now : N) (ticks : list (N * list (P * verdict))) : list (N * N) :=
+  match ticks with
+  | [] => []
+  | (dt, _) :: r => (now, now + dt) :: tick_times (now + dt) r
+  end.
+
+Lemma spec_outs_shape ticks : forall now ems,
+  map (@o_imm P) (spec_outs now ems ticks) = map (fun tk => immediate (snd tk)) ticks /\
+  map (fun o => (o_from o, o_at o)) (spec_outs now ems ticks) = tick_times now ticks.
+Proof.
+  induction ticks as [|[dt pvs] ticks IH]; intros now ems; cbn [spec_outs map tick_times]; [split; reflexivity|].
+  cbn [o_imm o_from o_at snd]. destruct (IH (now + dt) (ems ++ stamp (now + dt) pvs)) as [-> ->].
+  split; reflexivity.
+Qed.
+
+Lemma nodup_map_inj {A B} (f : A -> B) l a b :
+  NoDup (map f l) -> In a l -> In b l -> f a = f b -> a = b.
+Proof.
+  induction l as [|x l IH]; cbn; [intros _ []|].
+  intros Hn Ha Hb E. inversion Hn as [|? ? Hx Hl]; subst.
+  destruct Ha as [->|Ha], Hb as [->|Hb]; auto.
+  - exfalso. apply Hx. rewrite E. now apply in_map.
+  - exfalso. apply Hx. rewrite <- E. now apply in_map.
+Qed.
+
+(* --- the theorems, for every run of the scheduler from its initial state --- *)
+
+Lemma outs_due_window ticks o p :
+  In o (snd (srun (@sched0 P) ticks)) -> In p (o_due o) ->
+  exists t d, In (t, p, Deliver d) (emissions 0 ticks) /\ 0 < d /\
+              t <= o_from o /\ o_from o < t + d /\ t + d <= o_at o.
+Proof.
+  rewrite tick_spec_lemma. intros Ho Hp.
+  apply spec_outs_due in Ho as (E & rest & H1 & H2 & H3 & H4 & _ & _).
+  rewrite H4 in Hp. apply in_map_iff in Hp as (e & <- & He).
+  apply filter_In in He as [He Hw]. apply (proj1 (in_isort _ _)) in He. cbn [app] in He.
+  apply delayed_in in He as (t & d & Hin & Hd & Hat).
+  exists t, d. unfold in_window in Hw. apply andb_true_iff in Hw as [W1 W2].
+  apply N.ltb_lt in W1. apply N.leb_le in W2.
+  rewrite Forall_forall in H2. pose proof (H2 _ Hin) as Ht. unfold etime in Ht; cbn in Ht.
+  rewrite H1. repeat split; [apply in_or_app; now left|lia..].
+Qed.
+
+Lemma outs_due_complete ticks o t p d :
+  In o (snd (srun (@sched0 P) ticks)) ->
+  In (t, p, Deliver d) (emissions 0 ticks) -> 0 < d ->
+  o_from o < t + d -> t + d <= o_at o ->
+  In p (o_due o).
+Proof.
+  rewrite tick_spec_lemma. intros Ho Hin Hd W1 W2.
+  apply spec_outs_due in Ho as (E & rest & H1 & H2 & H3 & H4 & _ & _).
+  rewrite H1 in Hin. apply in_app_or in Hin as [Hin|Hin].
+  - apply (in_delayed 0) in Hin as (e & He & Hp & Hat); [|exact Hd].
+    rewrite H4. apply in_map_iff. exists e. split; [exact Hp|].
+    apply filter_In. split; [apply in_isort; exact He|].
+    unfold in_window. apply andb_true_iff. split; [apply N.ltb_lt|apply N.leb_le]; lia.
+  - rewrite Forall_forall in H3. apply H3 in Hin. unfold etime in Hin; cbn in Hin. lia.
+Qed.
+
+Lemma outs_due_sorted ticks o :
+  In o (snd (srun (@sched0 P) ticks)) ->
+  exists L, o_due o = map e_pkt L /\ sorted L /\
+            Forall (fun e => o_from o < e_at e /\ e_at e <= o_at o /\
+                             nth_error (delayed 0 (emissions 0 ticks)) (N.to_nat (e_seq e)) = Some e) L.
+Proof.
+  rewrite tick_spec_lemma. intros Ho.
+  apply spec_outs_due in Ho as (E & rest & H1 & H2 & H3 & H4 & _ & _). cbn [app] in H4.
+  eexists. split; [exact H4|]. split; [apply sorted_filter, isort_sorted|].
+  apply Forall_forall. intros e He. apply filter_In in He as [He Hw].
+  unfold in_window in Hw. apply andb_true_iff in Hw as [W1 W2].
+  apply N.ltb_lt in W1. apply N.leb_le in W2. repeat split; auto.
+  apply (proj1 (in_isort _ _)) in He. apply In_nth_error in He as (i & Hi).
+  pose proof (delayed_nth 0 E i e Hi) as Hs. rewrite Hs, N.add_0_l, Nat2N.id.
+  rewrite H1, delayed_app, nth_error_app1; [exact Hi|].
+  apply nth_error_Some. congruence.
+Qed.
+
+Lemma outs_drop_never ticks t p :
+  NoDup (map epkt (emissions 0 ticks)) ->
+  In (t, p, Drop) (emissions 0 ticks) ->
+  forall o, In o (snd (srun (@sched0 P) ticks)) -> ~ In p (o_all o).
+Proof.
+  intros Hn Hd o Ho Hp. unfold o_all in Hp. apply in_app_or in Hp as [Hp|Hp].
+  - apply (outs_due_window ticks o p Ho) in Hp as (t' & d & Hin & _).
+    pose proof (nodup_map_inj epkt _ _ _ Hn Hd Hin eq_refl). discriminate.
+  - rewrite tick_spec_lemma in Ho.
+    destruct (spec_outs_imm _ _ _ _ _ Ho Hp) as (v & Hin & Hv).
+    pose proof (nodup_map_inj epkt _ _ _ Hn Hd Hin eq_refl) as E.
+    destruct Hv; subst; discriminate.
+Qed.
+
+Lemma outs_imm ticks :
+  map (@o_imm P) (snd (srun (@sched0 P) ticks)) = map (fun tk => immediate (snd tk)) ticks.
+Proof. rewrite tick_spec_lemma. apply spec_outs_shape. Qed.
+
+Lemma outs_times ticks :
+  map (fun o => (o_from o, o_at o)) (snd (srun (@sched0 P) ticks)) = tick_times 0 ticks.
+Proof. rewrite tick_spec_lemma. apply spec_outs_shape. Qed.
+
+(* state invariant of every reachable scheduler *)
+Lemma pending_sorted_lemma ticks :
+  let s := fst (srun (@sched0 P) ticks) in
+  sorted (s_pending s) /\
+  Forall (fun e => s_now s < e_at e /\ e_seq e < s_next s) (s_pending s) /\
+  NoDup (map (@e_seq P) (s_pending s)).
+Proof.
+  intros s. destruct (srun_spec ticks sched0 [] Inv0) as (_ & [Hp Hn] & _). fold s in Hp, Hn.
+  cbn [app] in *. change (s_now (@sched0 P)) with 0 in *. set (D := delayed 0 (emissions 0 ticks)) in *.
+  assert (Hseq : forall e, In e D -> exists i, nth_error D i = Some e /\ e_seq e = N.of_nat i).
+  { intros e He. apply In_nth_error in He as (i & Hi). exists i. split; [exact Hi|].
+    pose proof (delayed_nth 0 _ i e Hi). lia. }
+  rewrite Hp. split; [apply sorted_filter, isort_sorted|]. split.
+  - apply Forall_forall. intros e He. apply filter_In in He as [He Hl].
+    unfold later in Hl. apply N.ltb_lt in Hl. split; [exact Hl|].
+    apply (proj1 (in_isort _ _)), Hseq in He as (i & Hi & ->). rewrite Hn.
+    assert (i < length D)%nat by (apply nth_error_Some; congruence). lia.
+  - (* the seqs of a sorted sub-multiset of D are pairwise different *)
+    assert (HD : NoDup (map (@e_seq P) D)).
+    { unfold D. generalize 0 at 1. generalize (emissions 0 ticks).
+      induction l as [|[[t p] v] l IH]; intros k; cbn [delayed map]; [constructor|].
+      destruct v as [|d|]; try apply IH. destruct (d =? 0); [apply IH|].
+      cbn [map e_seq]. constructor; [|apply IH].
+      intros Hk. apply in_map_iff in Hk as (e & E & He).
+      apply In_nth_error in He as (i & Hi). apply delayed_nth in Hi. lia. }
+    assert (HP : Permutation (isort D) D).
+    { clear. induction D as [|e l IH] using rev_ind; [constructor|].
+      rewrite isort_snoc. eapply perm_trans; [|apply Permutation_cons_append].
+      eapply perm_trans; [|apply perm_skip, IH].
+      generalize (isort l). intros m. induction m as [|x m IHm]; cbn; [constructor; constructor|].
+      destruct (key_leb e x); [apply Permutation_refl|].
+      eapply perm_trans; [apply perm_skip, IHm|apply perm_swap]. }
+    assert (HN : NoDup (map (@e_seq P) (isort D))).
+    { eapply Permutation_NoDup; [apply Permutation_map, Permutation_sym, HP|exact HD]. }
+    clear -HN. induction (isort D) as [|x l IH]; cbn; [constructor|].
+    inversion HN as [|? ? Hx Hl]; subst. destruct (later (s_now s) x); cbn; [constructor|]; auto.
+    intros Hin. apply Hx. apply in_map_iff in Hin as (y & E & Hy). apply filter_In in Hy as [Hy _].
+    apply in_map_iff. eauto.
+Qed.
+
+End SchedProofs.
+
+(* ======================================================================== *)
+(* 3. Kernel::egress                                                         *)
+(* ======================================================================== *)
+Section EgressProofs.
+Variable S : Type.
+Variable segment : S -> S * list pkt.
+Variable handle : S -> pkt -> S * list pkt.
+
+Lemma fold_local_out addrs st drained :
+  let '(_, _, out) := fold_local S handle addrs st drained in
+  out = filter (fun p => negb (is_local addrs (p_dst p))) drained.
+Proof.
+  revert st. induction drained as [|p r IH]; intros st; cbn [fold_local filter]; [reflexivity|].
+  destruct (is_local addrs (p_dst p)); cbn [negb].
+  - destruct (handle st p) as [st1 q1]. specialize (IH st1).
+    destruct (fold_local S handle addrs st1 r) as [[st2 q2] o2]. exact IH.
+  - specialize (IH st). destruct (fold_local S handle addrs st r) as [[st2 q2] o2]. now rewrite IH.
+Qed.
+
+Lemma loopback_not_in_out_lemma fuel : forall addrs st outbound,
+  let '(_, _, out) := kegress S segment handle fuel addrs st outbound in
+  Forall (fun p => is_local addrs (p_dst p) = false) out.
+Proof.
+  induction fuel as [|f IH]; intros addrs st ob; cbn [kegress]; [constructor|].
+  destruct (segment st) as [st1 q]. destruct (ob ++ q) as [|p0 l0] eqn:E; [constructor|].
+  pose proof (fold_local_out addrs st1 (p0 :: l0)) as Ho.
+  destruct (fold_local S handle addrs st1 (p0 :: l0)) as [[st2 q2] o].
+  specialize (IH addrs st2 q2). destruct (kegress S segment handle f addrs st2 q2) as [[st3 rest] o'].
+  apply Forall_app; split; [|exact IH].
+  rewrite Ho. apply Forall_forall. intros x Hx. apply filter_In in Hx as [_ Hx].
+  now apply negb_true_iff in Hx.
+Qed.
+End EgressProofs.
+
+(* ======================================================================== *)
+(* 4. order of the packets delivered by one tick                              *)
+(* ======================================================================== *)
+Section SchedOrder.
+Variable P : Type.
+Notation entry := (entry P).
+
+Lemma kle_refl (a : entry) : kle P a a.
+Proof. unfold kle. apply key_leb_spec. lia. Qed.
+
+Lemma sorted_order (L : list entry) e1 e2 :
+  sorted P L -> In e1 L -> In e2 L -> ~ kle P e2 e1 ->
+  exists a b c, L = a ++ e1 :: b ++ e2 :: c.
+Proof.
+  induction 1 as [|x l Hs IH Hx]; [intros []|].
+  intros H1 H2 Hn. destruct H1 as [->|H1].
+  - destruct H2 as [->|H2]; [exfalso; apply Hn, kle_refl|].
+    apply in_split in H2 as (b & c & ->). exists [], b, c. reflexivity.
+  - destruct H2 as [->|H2].
+    + exfalso. apply Hn. rewrite Forall_forall in Hx. now apply Hx.
+    + destruct (IH H1 H2 Hn) as (a & b & c & ->). exists (x :: a), b, c. reflexivity.
+Qed.
+
+Lemma delayed_index k (ems : list (N * P * verdict)) e :
+  In e (delayed k ems) -> nth_error (delayed k ems) (N.to_nat (e_seq e - k)) = Some e.
+Proof.
+  intros He. apply In_nth_error in He as (i & Hi).
+  pose proof (delayed_nth P k ems i e Hi) as Hs.
+  replace (N.to_nat (e_seq e - k)) with i by lia. exact Hi.
+Qed.
+
+Lemma outs_due_order ticks o :
+  In o (snd (srun (@sched0 P) ticks)) ->
+  let D := delayed 0 (emissions 0 ticks) in
+  exists L, o_due o = map e_pkt L /\ sorted P L /\
+            (forall e, In e L <-> In e D /\ o_from o < e_at e /\ e_at e <= o_at o).
+Proof.
+  rewrite tick_spec_lemma. intros Ho D.
+  apply spec_outs_due in Ho as (E & rest & H1 & H2 & H3 & H4 & _ & _). cbn [app] in H4.
+  eexists. split; [exact H4|]. split; [apply sorted_filter, isort_sorted|].
+  intros e. rewrite filter_In, in_isort. unfold in_window. rewrite andb_true_iff, N.ltb_lt, N.leb_le.
+  unfold D. rewrite H1, delayed_app, in_app_iff. split; [tauto|].
+  intros ([He|He] & W1 & W2); [tauto|]. exfalso.
+  apply delayed_in in He as (t & d & Hin & Hd & Hat).
+  rewrite Forall_forall in H3. apply H3 in Hin. unfold etime in Hin; cbn in Hin. lia.
+Qed.
+
+(* two delayed packets due in the same tick leave in (deadline, emission rank)
+   order; i1, i2 are their ranks among the delayed packets of the run *)
+Lemma due_fifo_lemma ticks o i1 i2 e1 e2 :
+  In o (snd (srun (@sched0 P) ticks)) ->
+  let D := delayed 0 (emissions 0 ticks) in
+  nth_error D i1 = Some e1 -> nth_error D i2 = Some e2 ->
+  (e_at e1 < e_at e2 \/ (e_at e1 = e_at e2 /\ (i1 < i2)%nat)) ->
+  o_from o < e_at e1 -> e_at e2 <= o_at o ->
+  exists a b c, o_due o = a ++ e_pkt e1 :: b ++ e_pkt e2 :: c.
+Proof.
+  intros Ho D N1 N2 Hk W1 W2.
+  destruct (outs_due_order ticks o Ho) as (L & HL & Hs & Hin). fold D in Hin.
+  pose proof (delayed_nth P 0 _ _ _ N1) as S1. pose proof (delayed_nth P 0 _ _ _ N2) as S2.
+  fold D in S1, S2.
+  assert (I1 : In e1 L) by (apply Hin; split; [eapply nth_error_In; eauto|lia]).
+  assert (I2 : In e2 L) by (apply Hin; split; [eapply nth_error_In; eauto|lia]).
+  destruct (sorted_order L e1 e2 Hs I1 I2) as (a & b & c & E).
+  - unfold kle. rewrite key_leb_spec. lia.
+  - exists (map e_pkt a), (map e_pkt b), (map e_pkt c).
+    rewrite HL, E, map_app. cbn. now rewrite map_app.
+Qed.
+
+End SchedOrder.
+
+(* ======================================================================== *)
+(* 5. the fixture: rules are shown exactly what left a host                    *)
+(* ======================================================================== *)
+From TV.NetPure Require Import Fixture.
+
+Lemma is_local_loopback addrs a : is_loopback a = true -> is_local addrs a = true.
+Proof. unfold is_local. now intros ->. Qed.
+
+Definition dgram_handle (st : list pkt) (p : pkt) : list pkt * list pkt := (st ++ [p], []).
+
+Lemma fold_local_noq addrs (dr : list pkt) : forall st,
+  snd (fst (fold_local (list pkt) dgram_handle addrs st dr)) = [].
+Proof.
+  induction dr as [|p r IH]; intros st; cbn [fold_local]; [reflexivity|].
+  destruct (is_local addrs (p_dst p)).
+  - unfold dgram_handle at 1. specialize (IH (st ++ [p])).
+    destruct (fold_local (list pkt) dgram_handle addrs (st ++ [p]) r) as [[a b] c]. cbn in *. now rewrite IH.
+  - specialize (IH st). destruct (fold_local (list pkt) dgram_handle addrs st r) as [[a b] c]. exact IH.
+Qed.
+
+Lemma host_egress_out h :
+  snd (host_egress h) = filter (fun p => negb (is_local (h_addrs h) (p_dst p))) (h_out h).
+Proof.
+  unfold host_egress. change (fun (st : list pkt) (p : pkt) => (st ++ [p], @nil pkt)) with dgram_handle.
+  cbn [kegress]. rewrite app_nil_r.
+  destruct (h_out h) as [|p0 l0] eqn:E; [reflexivity|].
+  pose proof (fold_local_out (list pkt) dgram_handle (h_addrs h) [] (p0 :: l0)) as Ho.
+  pose proof (fold_local_noq (h_addrs h) (p0 :: l0) []) as Hq.
+  destruct (fold_local (list pkt) dgram_handle (h_addrs h) [] (p0 :: l0)) as [[st2 q2] o].
+  cbn in Hq. subst q2. cbn. now rewrite app_nil_r.
+Qed.
+
+Lemma egress_all_nonlocal hs :
+  Forall (fun p => exists h, In h hs /\ In p (h_out h) /\ is_local (h_addrs h) (p_dst p) = false)
+         (snd (egress_all hs)).
+Proof.
+  induction hs as [|h r IH]; cbn [egress_all]; [constructor|].
+  pose proof (host_egress_out h) as Ho.
+  destruct (host_egress h) as [[h' f] o]. destruct (egress_all r) as [[r' f'] o']. cbn [snd] in *.
+  apply Forall_app; split.
+  - subst o. apply Forall_forall. intros x Hx. apply filter_In in Hx as [H1 H2].
+    exists h. repeat split; [now left|exact H1|now apply negb_true_iff in H2].
+  - eapply Forall_impl; [|exact IH]. cbn. intros x (h0 & H0 & H1). exists h0. split; [now right|exact H1].
+Qed.
+
+Lemma eval_all_ids (c : chain pkt) ps :
+  map (fun x => fst (fst x)) (snd (eval_all c ps)) = map p_id ps /\
+  map fst (snd (fst (eval_all c ps))) = ps.
+Proof.
+  revert c. induction ps as [|p r IH]; intros c; cbn [eval_all]; [split; reflexivity|].
+  destruct (evaluate c p) as [[c1 v] log]. specialize (IH c1).
+  destruct (eval_all c1 r) as [[c2 pvs] logs]. cbn in *. destruct IH as [-> ->]. split; reflexivity.
+Qed.
+
+(* one fixture tick: the packets shown to the rules are exactly the packets
+   egress_all handed out, none of which has a destination local to its sender *)
+Lemma tick_shows_only_egress_lemma (f : fixt) dt :
+  let out := snd (egress_all (f_hosts f)) in
+  let '(_, _, _, _, _, evals) := snd (fstep f (FTick dt)) in
+  map (fun x => fst (fst (fst x))) evals = map p_id out /\
+  Forall (fun p => exists h, In h (f_hosts f) /\ In p (h_out h) /\ is_local (h_addrs h) (p_dst p) = false) out.
+Proof.
+  intros out. pose proof (egress_all_nonlocal (f_hosts f)) as Hn. fold out in Hn.
+  cbn [fstep]. unfold out in *. destruct (egress_all (f_hosts f)) as [[hs folded] o]. cbn [snd] in *.
+  unfold do_tick. pose proof (eval_all_ids (f_chain f) o) as [Hi _].
+  destruct (eval_all (f_chain f) o) as [[c pvs] logs]. destruct (tick (f_sched f) dt pvs) as [s t].
+  cbn [snd] in *. split; [|exact Hn].
+  unfold enc_logs. rewrite map_map. rewrite <- Hi. apply map_ext. intros [[i l] v]. reflexivity.
+Qed.
